@@ -114,7 +114,8 @@ func resolveCLI(p *core.Program, inits map[string]*core.InitVal) *cliModel {
 			continue
 		}
 		sig := fn.Signature
-		if sig.Results().Len() == 1 && sig.Params().Len() == 0 {
+		// the recipe builders: by result type; they may read the flags themselves or be given their values
+		if sig.Results().Len() == 1 {
 			switch core.NamedOf(sig.Results().At(0).Type()) {
 			case core.ModulePath + ".CharRecipe":
 				m.charGen = fn
@@ -145,6 +146,10 @@ func resolveCLI(p *core.Program, inits map[string]*core.InitVal) *cliModel {
 	// word-list sources: functions returning *spg.WordList
 	for _, fn := range p.ModuleFuncs() {
 		if fn.Pkg != p.Cmd || fn.Parent() != nil || fn.Signature.Results().Len() != 1 || core.NamedOf(fn.Signature.Results().At(0).Type()) != core.ModulePath+".WordList" {
+			continue
+		}
+		// a source takes the flag's value (a file path or a list name); a function without such a parameter only chooses between the sources
+		if fn.Signature.Params().Len() != 1 || !isStringT(fn.Signature.Params().At(0).Type()) {
 			continue
 		}
 		readsFile := false
@@ -636,7 +641,12 @@ func checkWiring(p *core.Program, r *core.Report) {
 		r.Unrecognised("R17.3", "-", "charGenerator/wlGenerator/parseCharacterClasses", "", "not all found")
 		return
 	}
-	flagLoad := func(v ssa.Value, flagVar string) bool {
+	var flagLoad func(v ssa.Value, flagVar string) bool
+	flagLoad = func(v ssa.Value, flagVar string) bool {
+		// a parameter of the builder: what its only caller passes
+		if a := actualArg(p, v); a != nil {
+			return flagLoad(a, flagVar)
+		}
 		// *(*flagVar)
 		ld, ok := v.(*ssa.UnOp)
 		if !ok || ld.Op != token.MUL {
@@ -658,6 +668,18 @@ func checkWiring(p *core.Program, r *core.Report) {
 			return false
 		}
 		g, ok := ref.Root.(*ssa.Global)
+		if !ok {
+			// the defaults handed in as a by-value parameter (receiver) whose only caller passes the defaults variable
+			if al, isAl := ref.Root.(*ssa.Alloc); isAl {
+				if i := paramCopiedInto(al); i >= 0 && i < len(al.Parent().Params) {
+					if a := actualArg(p, al.Parent().Params[i]); a != nil {
+						if ld, isLd := a.(*ssa.UnOp); isLd && ld.Op == token.MUL {
+							g, ok = ld.X.(*ssa.Global)
+						}
+					}
+				}
+			}
+		}
 		if !ok || g.Name() != cli.defaults {
 			return false
 		}
@@ -775,7 +797,8 @@ func checkWiring(p *core.Program, r *core.Report) {
 				continue
 			}
 			n++
-			arg := cv.Call.Args[0]
+			// through a merge left by an expanded helper: the value on the edge the tests before the call select
+			arg := core.SelectedEdge(cv.Call.Args[0], liveGuards(cv.Block()))
 			okArg, why := false, core.Describe(arg)
 			if src == cli.fileList {
 				// strings.Fields(string(data)) with data the bytes of the file named by the parameter
@@ -1302,6 +1325,28 @@ func oneLineWrite(c ssa.CallInstruction) (bool, string) {
 		return lineOf(args[len(args)-1], 0)
 	}
 	return false, "unrecognised stdout call " + name
+}
+
+// actualArg: v is a parameter of a cmd function with exactly one call site in the module: the argument passed there.
+func actualArg(p *core.Program, v ssa.Value) ssa.Value {
+	pa, ok := v.(*ssa.Parameter)
+	if !ok {
+		return nil
+	}
+	fn := pa.Parent()
+	if fn == nil || fn.Pkg != p.Cmd {
+		return nil
+	}
+	callers := p.Callers(fn)
+	if len(callers) != 1 {
+		return nil
+	}
+	idx := paramIndex(pa)
+	args := callers[0].Common().Args
+	if idx < 0 || idx >= len(args) {
+		return nil
+	}
+	return args[idx]
 }
 
 func isOsFile(v ssa.Value, which string) bool {
